@@ -6,7 +6,11 @@
      - the instance registry is transparent: whatever was instantiated before, a struct type name gets the
        instance (block, type map) it would get from an empty registry;
      - resolve_complex_type on the spelling of a flat type expression is structural substitution;
-     - refuted with witnesses: nested arguments, tuple-typed arguments, a run-time error passing the pops. *)
+     - deferred statements: in the code the defers still pending when a method body is left run AFTER the pop of its
+       context (under the caller's); the stack semantics equals the fixed-context semantics in that order for every
+       program, and equals the hand-specialised copy for every program whose defers are run by the closing top-level
+       return; refuted beyond (finding C11-impl-defer-after-context-pop);
+     - refuted with witnesses: nested arguments, a local spelled over a parameter, late deferred statements. *)
 From Coq Require Import String Ascii List Bool Arith ZArith NArith Lia.
 Import ListNotations.
 From Cb Require Import C11.Gen_CloneFields C11.Model C11.Cache C11.Names C11.Context.
@@ -17,98 +21,272 @@ Lemma resolve_in_context_cur : forall st s,
   resolve_type_in_context st s = resolve_cur (get_current_type_context st) s.
 Proof. reflexivity. Qed.
 
-Lemma run_refines_mono_l : forall fuel P st ic env n b,
-  r_out (run fuel P st ic env n b) = q_out (run_mono fuel P (get_current_type_context st) ic env n b) /\
-  r_cache (run fuel P st ic env n b) = q_cache (run_mono fuel P (get_current_type_context st) ic env n b) /\
-  r_flag (run fuel P st ic env n b) = q_flag (run_mono fuel P (get_current_type_context st) ic env n b) /\
-  r_stack (run fuel P st ic env n b) = st.
+Lemma obs_all_cur : forall st l, obs_all st l = obs_cur (get_current_type_context st) l.
+Proof. reflexivity. Qed.
+
+(* a run under the stack and a run under fixed contexts tell the same story, and the stack is back *)
+Definition agree (x : res) (y : mres) (st : stack) : Prop :=
+  r_out x = q_out y /\ r_cache x = q_cache y /\ r_flag x = q_flag y /\ r_pend x = q_pend y /\ r_stack x = st.
+
+Lemma agree_stop : forall st ic fl dfs,
+  agree (stop st ic fl dfs) (mstop true (get_current_type_context st) ic fl dfs) st.
+Proof. intros. unfold agree, stop, mstop. cbn. repeat split. Qed.
+
+Ltac use_agree H :=
+  let H1 := fresh "H" in let H2 := fresh "H" in let H3 := fresh "H" in let H4 := fresh "H" in let H5 := fresh "H" in
+  destruct H as [H1 [H2 [H3 [H4 H5]]]].
+
+(* Mech refines the fixed-context semantics IN THE ORDER OF THE CODE (late = true), for every program *)
+Lemma run_refines_mono_l : forall fuel P st ic env n dfs b,
+  agree (run fuel P st ic env n dfs b) (run_mono true fuel P (get_current_type_context st) ic env n dfs b) st.
 Proof.
-  induction fuel as [|f IH]; intros P st ic env n b.
-  - cbn. repeat split.
+  induction fuel as [|f IH]; intros P st ic env n dfs b.
+  - unfold agree. cbn. repeat split.
   - destruct b as [|a r].
-    + cbn. repeat split.
-    + destruct a as [ty|v ty|v m|v m|g|k|].
+    + unfold agree. cbn. repeat split.
+    + destruct a as [ty|v ty|v m|v m|g|k|ty| |].
       * (* AObs *)
-        cbn [run run_mono r_out r_cache r_flag r_stack q_out q_cache q_flag].
-        destruct (IH P st ic env n r) as [H1 [H2 [H3 H4]]].
-        rewrite H1, H2, H3, H4. repeat split.
+        cbn [run run_mono].
+        pose proof (IH P st ic env n dfs r) as H. use_agree H.
+        unfold agree. cbn [r_out r_cache r_flag r_stack r_pend q_out q_cache q_flag q_pend].
+        rewrite H0, H1, H2, H3, H4. repeat split.
       * (* ADecl *)
         cbn [run run_mono]. apply IH.
       * (* ACall *)
         cbn [run run_mono].
-        destruct (lookup env v) as [rty|]; [|cbn; repeat split].
-        destruct (enter P ic rty m) as [[[ic1 pushed] md]|]; [|cbn; repeat split].
+        destruct (lookup env v) as [rty|]; [|apply agree_stop].
+        destruct (enter P ic rty m) as [[[ic1 pushed] md]|]; [|apply agree_stop].
         destruct pushed as [c|].
         -- (* a generic instance: its context is pushed, and popped whatever the outcome *)
-           destruct (IH P (push_type_context c st) ic1 ((self_name, rty) :: m_params md) (pred n) (m_body md))
-             as [H1 [H2 [H3 H4]]].
-           change (get_current_type_context (push_type_context c st)) with (Some c) in H1, H2, H3.
-           rewrite <- H3. rewrite H4. change (pop_type_context (push_type_context c st)) with st.
+           pose proof (IH P (push_type_context c st) ic1 ((self_name, rty) :: m_params md) (pred n) [] (m_body md)) as H.
+           change (get_current_type_context (push_type_context c st)) with (Some c) in H. use_agree H.
+           rewrite H4. change (pop_type_context (push_type_context c st)) with st.
+           rewrite obs_all_cur. rewrite H3, <- H2.
            destruct (flag_err (r_flag (run f P (push_type_context c st) ic1 ((self_name, rty) :: m_params md)
-                                          (pred n) (m_body md)))) eqn:E.
-           ++ cbn [r_out r_cache r_flag r_stack q_out q_cache q_flag]. repeat split; assumption.
-           ++ rewrite H2.
-              destruct (IH P st (q_cache (run_mono f P (Some c) ic1 ((self_name, rty) :: m_params md) (pred n)
-                                                   (m_body md))) env n r) as [G1 [G2 [G3 G4]]].
-              cbn [r_out r_cache r_flag r_stack q_out q_cache q_flag].
-              rewrite H1, G1, G2, G3, G4. repeat split.
+                                          (pred n) [] (m_body md)))) eqn:E.
+           ++ unfold agree, mstop.
+              cbn [r_out r_cache r_flag r_stack r_pend q_out q_cache q_flag q_pend].
+              rewrite H0, H1, app_nil_r. repeat split.
+           ++ rewrite H1.
+              pose proof (IH P st (q_cache (run_mono true f P (Some c) ic1 ((self_name, rty) :: m_params md) (pred n) []
+                                                   (m_body md))) env n dfs r) as G. use_agree G.
+              unfold agree. cbn [r_out r_cache r_flag r_stack r_pend q_out q_cache q_flag q_pend].
+              rewrite H0, H, H5, H6, H7, H8. repeat split.
         -- (* a plain struct: nothing is pushed *)
-           destruct (IH P st ic1 ((self_name, rty) :: m_params md) (pred n) (m_body md)) as [H1 [H2 [H3 H4]]].
-           rewrite <- H3. rewrite H4.
-           destruct (flag_err (r_flag (run f P st ic1 ((self_name, rty) :: m_params md) (pred n) (m_body md)))) eqn:E.
-           ++ cbn [r_out r_cache r_flag r_stack q_out q_cache q_flag]. repeat split; assumption.
-           ++ rewrite H2.
-              destruct (IH P st (q_cache (run_mono f P (get_current_type_context st) ic1
-                                                   ((self_name, rty) :: m_params md) (pred n) (m_body md))) env n r)
-                as [G1 [G2 [G3 G4]]].
-              cbn [r_out r_cache r_flag r_stack q_out q_cache q_flag].
-              rewrite H1, G1, G2, G3, G4. repeat split.
+           pose proof (IH P st ic1 ((self_name, rty) :: m_params md) (pred n) [] (m_body md)) as H. use_agree H.
+           rewrite H4. rewrite obs_all_cur. rewrite H3, <- H2.
+           destruct (flag_err (r_flag (run f P st ic1 ((self_name, rty) :: m_params md) (pred n) [] (m_body md)))) eqn:E.
+           ++ unfold agree, mstop.
+              cbn [r_out r_cache r_flag r_stack r_pend q_out q_cache q_flag q_pend].
+              rewrite H0, H1, app_nil_r. repeat split.
+           ++ rewrite H1.
+              pose proof (IH P st (q_cache (run_mono true f P (get_current_type_context st) ic1
+                                                   ((self_name, rty) :: m_params md) (pred n) [] (m_body md))) env n dfs r) as G.
+              use_agree G.
+              unfold agree. cbn [r_out r_cache r_flag r_stack r_pend q_out q_cache q_flag q_pend].
+              rewrite H0, H, H5, H6, H7, H8. repeat split.
       * (* ATry *)
         cbn [run run_mono].
-        destruct (lookup env v) as [rty|]; [|cbn; repeat split].
+        destruct (lookup env v) as [rty|]; [|apply agree_stop].
         destruct (enter P ic rty m) as [[[ic1 pushed] md]|]; [|apply IH].
         destruct pushed as [c|].
-        -- destruct (IH P (push_type_context c st) ic1 ((self_name, rty) :: m_params md) (pred n) (m_body md))
-             as [H1 [H2 [H3 H4]]].
-           change (get_current_type_context (push_type_context c st)) with (Some c) in H1, H2, H3.
-           rewrite H4. change (pop_type_context (push_type_context c st)) with st. rewrite H2.
-           destruct (IH P st (q_cache (run_mono f P (Some c) ic1 ((self_name, rty) :: m_params md) (pred n)
-                                                (m_body md))) env n r) as [G1 [G2 [G3 G4]]].
-           cbn [r_out r_cache r_flag r_stack q_out q_cache q_flag].
-           rewrite H1, G1, G2, G3, G4. repeat split.
-        -- destruct (IH P st ic1 ((self_name, rty) :: m_params md) (pred n) (m_body md)) as [H1 [H2 [H3 H4]]].
-           rewrite H4. rewrite H2.
-           destruct (IH P st (q_cache (run_mono f P (get_current_type_context st) ic1
-                                                ((self_name, rty) :: m_params md) (pred n) (m_body md))) env n r)
-             as [G1 [G2 [G3 G4]]].
-           cbn [r_out r_cache r_flag r_stack q_out q_cache q_flag].
-           rewrite H1, G1, G2, G3, G4. repeat split.
+        -- pose proof (IH P (push_type_context c st) ic1 ((self_name, rty) :: m_params md) (pred n) [] (m_body md)) as H.
+           change (get_current_type_context (push_type_context c st)) with (Some c) in H. use_agree H.
+           rewrite H4. change (pop_type_context (push_type_context c st)) with st.
+           rewrite obs_all_cur. rewrite H3, H1.
+           pose proof (IH P st (q_cache (run_mono true f P (Some c) ic1 ((self_name, rty) :: m_params md) (pred n) []
+                                                (m_body md))) env n dfs r) as G. use_agree G.
+           unfold agree. cbn [r_out r_cache r_flag r_stack r_pend q_out q_cache q_flag q_pend].
+           rewrite H0, H, H5, H6, H7, H8. repeat split.
+        -- pose proof (IH P st ic1 ((self_name, rty) :: m_params md) (pred n) [] (m_body md)) as H. use_agree H.
+           rewrite H4. rewrite obs_all_cur. rewrite H3, H1.
+           pose proof (IH P st (q_cache (run_mono true f P (get_current_type_context st) ic1
+                                                ((self_name, rty) :: m_params md) (pred n) [] (m_body md))) env n dfs r) as G.
+           use_agree G.
+           unfold agree. cbn [r_out r_cache r_flag r_stack r_pend q_out q_cache q_flag q_pend].
+           rewrite H0, H, H5, H6, H7, H8. repeat split.
       * (* AFn *)
         cbn [run run_mono].
-        destruct (enter_fn P g) as [md|]; [|cbn; repeat split].
-        destruct (IH P st ic (m_params md) (pred n) (m_body md)) as [H1 [H2 [H3 H4]]].
-        rewrite <- H3.
-        destruct (flag_err (r_flag (run f P st ic (m_params md) (pred n) (m_body md)))) eqn:E.
-        -- repeat split; assumption.
-        -- rewrite H4. rewrite H2.
-           destruct (IH P st (q_cache (run_mono f P (get_current_type_context st) ic (m_params md) (pred n) (m_body md)))
-                        env n r) as [G1 [G2 [G3 G4]]].
-           cbn [r_out r_cache r_flag r_stack q_out q_cache q_flag].
-           rewrite H1, G1, G2, G3, G4. repeat split.
+        destruct (enter_fn P g) as [md|]; [|apply agree_stop].
+        pose proof (IH P st ic (m_params md) (pred n) [] (m_body md)) as H. use_agree H.
+        rewrite H4. rewrite obs_all_cur. rewrite H3, <- H2.
+        destruct (flag_err (r_flag (run f P st ic (m_params md) (pred n) [] (m_body md)))) eqn:E.
+        -- unfold agree, mstop.
+           cbn [r_out r_cache r_flag r_stack r_pend q_out q_cache q_flag q_pend].
+           rewrite H0, H1, app_nil_r. repeat split.
+        -- rewrite H1.
+           pose proof (IH P st (q_cache (run_mono true f P (get_current_type_context st) ic (m_params md) (pred n) []
+                                                (m_body md))) env n dfs r) as G. use_agree G.
+           unfold agree. cbn [r_out r_cache r_flag r_stack r_pend q_out q_cache q_flag q_pend].
+           rewrite H0, H, H5, H6, H7, H8. repeat split.
       * (* ARetIf *)
-        cbn [run run_mono]. destruct (n <=? k); [cbn; repeat split | apply IH].
+        cbn [run run_mono]. destruct (n <=? k); [apply agree_stop | apply IH].
+      * (* ADefer *)
+        cbn [run run_mono]. apply IH.
+      * (* AEnd *)
+        cbn [run run_mono]. apply agree_stop.
       * (* AFail *)
-        cbn. repeat split.
+        cbn [run run_mono]. apply agree_stop.
 Qed.
 
 (* the stack is the same after ANY outcome of any body: normal end, early return, run-time error, fuel *)
-Lemma stack_restored_l : forall fuel P st ic env n b, r_stack (run fuel P st ic env n b) = st.
+Lemma stack_restored_l : forall fuel P st ic env n dfs b, r_stack (run fuel P st ic env n dfs b) = st.
 Proof. intros. apply run_refines_mono_l. Qed.
 
 (* a caller that catches the callee's error finds its own context again *)
 Lemma try_restores_context_l : forall fuel P st ic env n v m ty,
   resolve_type_in_context (stack_after_try fuel P st ic env n v m) ty = resolve_type_in_context st ty.
 Proof. intros. unfold stack_after_try. rewrite stack_restored_l. reflexivity. Qed.
+
+(* ------------------------------------------------------------------ (1b) deferred statements *)
+(* In the hand-specialised copy a deferred statement observes its own body's context whenever it runs
+   (run_mono false); in the code the defers still pending when a body is left run after the pop of its context
+   (run_mono true = run, above).  The two agree for every program whose bodies register a defer only where nothing
+   but plain statements follows: then every body with a pending defer ends in its closing top-level return, which
+   runs the defers before the context is popped. *)
+Definition simple_act (a : act) : bool :=
+  match a with AObs _ | ADecl _ _ | ADefer _ => true | _ => false end.
+
+Fixpoint defers_early (b : list act) : bool :=
+  match b with
+  | [] => true
+  | ADefer _ :: r => forallb simple_act r
+  | _ :: r => defers_early r
+  end.
+
+Definition method_ok (km : str * method) : bool := defers_early (m_body (snd km)).
+Definition block_ok (blk : block) : bool := forallb method_ok (b_methods blk).
+Definition prog_defers_early (P : program) : bool := forallb block_ok P.
+
+Lemma mono_false_pend_nil : forall fuel P cur ic env n dfs b,
+  q_pend (run_mono false fuel P cur ic env n dfs b) = [].
+Proof.
+  induction fuel as [|f IH]; intros P cur ic env n dfs b; [reflexivity|].
+  destruct b as [|a r]; [reflexivity|].
+  destruct a as [ty|v ty|v m|v m|g|k|ty| |]; cbn [run_mono].
+  - cbn [q_pend]. apply IH.
+  - apply IH.
+  - destruct (lookup env v) as [rty|]; [|reflexivity].
+    destruct (enter P ic rty m) as [[[ic1 pushed] md]|]; [|reflexivity].
+    match goal with |- context [flag_err (q_flag ?x)] => destruct (flag_err (q_flag x)) end; [reflexivity|].
+    cbn [q_pend]. apply IH.
+  - destruct (lookup env v) as [rty|]; [|reflexivity].
+    destruct (enter P ic rty m) as [[[ic1 pushed] md]|]; [|apply IH].
+    cbn [q_pend]. apply IH.
+  - destruct (enter_fn P g) as [md|]; [|reflexivity].
+    match goal with |- context [flag_err (q_flag ?x)] => destruct (flag_err (q_flag x)) end; [reflexivity|].
+    cbn [q_pend]. apply IH.
+  - destruct (n <=? k); [reflexivity | apply IH].
+  - apply IH.
+  - reflexivity.
+  - reflexivity.
+Qed.
+
+Lemma lookup_method_ok : forall ms m md,
+  forallb method_ok ms = true -> lookup_method ms m = Some md -> defers_early (m_body md) = true.
+Proof.
+  induction ms as [|[k v] r IH]; intros m md Hok H; simpl in H; [discriminate|].
+  simpl in Hok. apply andb_true_iff in Hok. destruct Hok as [Hv Hr].
+  destruct (str_eqb m k).
+  - inversion H; subst. exact Hv.
+  - eapply IH; eassumption.
+Qed.
+
+Lemma find_plain_in : forall P name b, find_plain P name = Some b -> In b P.
+Proof.
+  induction P as [|b0 r IH]; intros name b H; simpl in H; [discriminate|].
+  destruct (str_eqb (b_base b0) name && (List.length (b_params b0) =? 0)).
+  - inversion H; subst. left. reflexivity.
+  - right. eapply IH. exact H.
+Qed.
+
+Lemma enter_method_ok : forall P ic rty m ic1 pushed md,
+  prog_defers_early P = true -> enter P ic rty m = Some (ic1, pushed, md) -> defers_early (m_body md) = true.
+Proof.
+  intros P ic rty m ic1 pushed md Hok. unfold prog_defers_early in Hok. rewrite forallb_forall in Hok. unfold enter.
+  destruct (has_char c_lt rty).
+  - destruct (find_impl_for_struct P ic rty) as [ic2 [i|]]; [|discriminate].
+    destruct (nth_error P (i_block i)) as [b|] eqn:E; [|discriminate].
+    destruct (lookup_method (b_methods b) m) as [md0|] eqn:L; [|discriminate].
+    intros H. inversion H; subst.
+    eapply lookup_method_ok; [|exact L]. apply Hok. eapply nth_error_In. exact E.
+  - destruct (find_plain P rty) as [b|] eqn:E; [|discriminate].
+    destruct (lookup_method (b_methods b) m) as [md0|] eqn:L; [|discriminate].
+    intros H. inversion H; subst.
+    eapply lookup_method_ok; [|exact L]. apply Hok. eapply find_plain_in. exact E.
+Qed.
+
+Lemma enter_fn_method_ok : forall P g md,
+  prog_defers_early P = true -> enter_fn P g = Some md -> defers_early (m_body md) = true.
+Proof.
+  intros P g md Hok. unfold prog_defers_early in Hok. rewrite forallb_forall in Hok. unfold enter_fn.
+  destruct (find_plain P g) as [b|] eqn:E; [|discriminate].
+  intros L. eapply lookup_method_ok; [|exact L]. apply Hok. eapply find_plain_in. exact E.
+Qed.
+
+Lemma mstop_nil : forall late cur ic fl, mstop late cur ic fl [] = mstop false cur ic fl [].
+Proof. intros [|] cur ic fl; reflexivity. Qed.
+
+(* the order of the code and the hand-specialised copy coincide on such programs *)
+Lemma defers_early_same : forall fuel P cur ic env n dfs b,
+  prog_defers_early P = true ->
+  (dfs = [] /\ defers_early b = true) \/ forallb simple_act b = true ->
+  run_mono true fuel P cur ic env n dfs b = run_mono false fuel P cur ic env n dfs b.
+Proof.
+  induction fuel as [|f IH]; intros P cur ic env n dfs b HP Hb; [reflexivity|].
+  destruct b as [|a r]; [reflexivity|].
+  destruct Hb as [[Hd Hb]|Hb].
+  - subst dfs.
+    destruct a as [ty|v ty|v m|v m|g|k|ty| |]; cbn [run_mono]; cbn [defers_early] in Hb.
+    + rewrite (IH P cur ic env n [] r HP); [reflexivity | left; split; [reflexivity | exact Hb]].
+    + apply IH; [exact HP | left; split; [reflexivity | exact Hb]].
+    + destruct (lookup env v) as [rty|]; [|reflexivity].
+      destruct (enter P ic rty m) as [[[ic1 pushed] md]|] eqn:E; [|reflexivity].
+      rewrite (IH P (match pushed with Some c => Some c | None => cur end) ic1 ((self_name, rty) :: m_params md) (pred n) []
+                  (m_body md) HP);
+        [|left; split; [reflexivity | eapply enter_method_ok; eassumption]].
+      rewrite mstop_nil.
+      match goal with |- context [flag_err (q_flag ?x)] => destruct (flag_err (q_flag x)) end; [reflexivity|].
+      rewrite (IH P cur _ env n [] r HP); [reflexivity | left; split; [reflexivity | exact Hb]].
+    + destruct (lookup env v) as [rty|]; [|reflexivity].
+      destruct (enter P ic rty m) as [[[ic1 pushed] md]|] eqn:E;
+        [|apply IH; [exact HP | left; split; [reflexivity | exact Hb]]].
+      rewrite (IH P (match pushed with Some c => Some c | None => cur end) ic1 ((self_name, rty) :: m_params md) (pred n) []
+                  (m_body md) HP);
+        [|left; split; [reflexivity | eapply enter_method_ok; eassumption]].
+      rewrite (IH P cur _ env n [] r HP); [reflexivity | left; split; [reflexivity | exact Hb]].
+    + destruct (enter_fn P g) as [md|] eqn:E; [|reflexivity].
+      rewrite (IH P cur ic (m_params md) (pred n) [] (m_body md) HP);
+        [|left; split; [reflexivity | eapply enter_fn_method_ok; eassumption]].
+      rewrite mstop_nil.
+      match goal with |- context [flag_err (q_flag ?x)] => destruct (flag_err (q_flag x)) end; [reflexivity|].
+      rewrite (IH P cur _ env n [] r HP); [reflexivity | left; split; [reflexivity | exact Hb]].
+    + destruct (n <=? k); [reflexivity|].
+      apply IH; [exact HP | left; split; [reflexivity | exact Hb]].
+    + apply IH; [exact HP | right; exact Hb].
+    + reflexivity.
+    + reflexivity.
+  - cbn [forallb] in Hb. apply andb_true_iff in Hb. destruct Hb as [Ha Hr].
+    destruct a as [ty|v ty|v m|v m|g|k|ty| |]; try discriminate Ha; cbn [run_mono].
+    + rewrite (IH P cur ic env n dfs r HP); [reflexivity | right; exact Hr].
+    + apply IH; [exact HP | right; exact Hr].
+    + apply IH; [exact HP | right; exact Hr].
+Qed.
+
+(* Mech = the hand-specialised copy, for every such program *)
+Lemma run_refines_hand_copy_l : forall fuel P st ic env n b,
+  prog_defers_early P = true -> defers_early b = true ->
+  r_out (run fuel P st ic env n [] b) = q_out (run_mono false fuel P (get_current_type_context st) ic env n [] b) /\
+  r_cache (run fuel P st ic env n [] b) = q_cache (run_mono false fuel P (get_current_type_context st) ic env n [] b) /\
+  r_flag (run fuel P st ic env n [] b) = q_flag (run_mono false fuel P (get_current_type_context st) ic env n [] b) /\
+  r_stack (run fuel P st ic env n [] b) = st.
+Proof.
+  intros fuel P st ic env n b HP Hb.
+  pose proof (run_refines_mono_l fuel P st ic env n [] b) as H. destruct H as [H1 [H2 [H3 [_ H5]]]].
+  rewrite (defers_early_same fuel P (get_current_type_context st) ic env n [] b HP) in H1, H2, H3
+    by (left; split; [reflexivity | exact Hb]).
+  repeat split; assumption.
+Qed.
 
 (* ------------------------------------------------------------------ (2) the instance registry *)
 Definition cache_ok (P : program) (ic : icache) : Prop :=
@@ -176,13 +354,13 @@ Proof.
     destruct (lookup_method (b_methods b) m); discriminate.
 Qed.
 
-Lemma run_cache_ok : forall fuel P st ic env n b,
-  cache_ok P ic -> cache_ok P (r_cache (run fuel P st ic env n b)).
+Lemma run_cache_ok : forall fuel P st ic env n dfs b,
+  cache_ok P ic -> cache_ok P (r_cache (run fuel P st ic env n dfs b)).
 Proof.
-  induction fuel as [|f IH]; intros P st ic env n b Hok.
+  induction fuel as [|f IH]; intros P st ic env n dfs b Hok.
   - exact Hok.
   - destruct b as [|a r]; [exact Hok|].
-    destruct a as [ty|v ty|v m|v m|g|k|]; cbn [run].
+    destruct a as [ty|v ty|v m|v m|g|k|ty| |]; cbn [run].
     + cbn [r_cache]. apply IH. exact Hok.
     + apply IH. exact Hok.
     + destruct (lookup env v) as [rty|]; [|exact Hok].
@@ -197,9 +375,11 @@ Proof.
       cbn [r_cache]. apply IH. apply IH. exact Hok1.
     + destruct (enter_fn P g) as [md|]; [|exact Hok].
       match goal with |- context [flag_err (r_flag ?x)] => destruct (flag_err (r_flag x)) end.
-      * apply IH. exact Hok.
+      * cbn [r_cache]. apply IH. exact Hok.
       * cbn [r_cache]. apply IH. apply IH. exact Hok.
     + destruct (n <=? k); [exact Hok | apply IH; exact Hok].
+    + apply IH. exact Hok.
+    + exact Hok.
     + exact Hok.
 Qed.
 
@@ -548,4 +728,38 @@ Definition w_cell3 : block :=
 Lemma cross_instantiation_example_l :
   r_out (run_main 20 [w_cell3] [] (s2l "Cell<int>") (s2l "cross") 3) = [s2l "int"; s2l "long"; s2l "int"; s2l "int"] /\
   r_stack (run_main 20 [w_cell3] [] (s2l "Cell<int>") (s2l "cross") 3) = [].
+Proof. split; vm_compute; reflexivity. Qed.
+
+(* known finding C11-impl-defer-after-context-pop: a deferred statement of a generic impl method that is still pending
+   when the body is left (return inside a nested block, end of a void method, run-time error) runs after the method's
+   type context was popped.  `late` of Cell<long>, called from a method of Cell<short>: the deferred sizeof(T) observes
+   short, the hand-specialised copy observes long. *)
+Definition w_late : method := {| m_params := []; m_body := [ADefer w_T; ARetIf 5] |}.
+Definition w_outer : method :=
+  {| m_params := [(s2l "o", s2l "Cell<long>")]; m_body := [ACall (s2l "o") (s2l "late"); AObs w_T] |}.
+Definition w_void : method := {| m_params := []; m_body := [ADefer w_T; AObs w_T; AEnd] |}.
+Definition w_top : method := {| m_params := []; m_body := [ADefer w_T; AObs w_T] |}.
+Definition w_cell5 : block :=
+  {| b_base := s2l "Cell"; b_params := [w_T];
+     b_methods := [(s2l "late", w_late); (s2l "outer", w_outer); (s2l "void", w_void); (s2l "top", w_top)] |}.
+
+Lemma deferred_statement_context_refuted_l :
+  r_out (run_main 20 [w_cell5] [] (s2l "Cell<short>") (s2l "outer") 3) = [s2l "short"; s2l "short"] /\
+  q_out (run_main_mono 20 [w_cell5] [] (s2l "Cell<short>") (s2l "outer") 3) = [s2l "long"; s2l "short"] /\
+  (* from main no context is left at all: the parameter stays unresolved *)
+  r_out (run_main 20 [w_cell5] [] (s2l "Cell<long>") (s2l "void") 3) = [s2l "long"; s2l "T"] /\
+  q_out (run_main_mono 20 [w_cell5] [] (s2l "Cell<long>") (s2l "void") 3) = [s2l "long"; s2l "long"] /\
+  prog_defers_early [w_cell5] = false.
+Proof. repeat split; vm_compute; reflexivity. Qed.
+
+(* the hypothesis of run_refines_hand_copy_l is satisfiable by a program that defers: a defer followed by plain
+   statements and the closing top-level return runs under the method's own context *)
+Definition w_outer2 : method :=
+  {| m_params := [(s2l "o", s2l "Cell<long>")]; m_body := [ACall (s2l "o") (s2l "top"); AObs w_T] |}.
+Definition w_cell6 : block :=
+  {| b_base := s2l "Cell"; b_params := [w_T]; b_methods := [(s2l "top", w_top); (s2l "outer", w_outer2)] |}.
+
+Lemma defer_top_level_example_l :
+  prog_defers_early [w_cell6] = true /\
+  r_out (run_main 20 [w_cell6] [] (s2l "Cell<short>") (s2l "outer") 3) = [s2l "long"; s2l "long"; s2l "short"].
 Proof. split; vm_compute; reflexivity. Qed.
